@@ -187,3 +187,7 @@ pub use wow_blp::BlpImage as BlpTexture;
 
 /// Library version
 pub const VERSION: &str = env!("CARGO_PKG_VERSION");
+
+// verification hook (guard: cfg(kani), set only by `cargo kani`): harness module lives in /verif
+#[cfg(kani)]
+mod verif_kani;
